@@ -106,7 +106,7 @@ func (w *World) send4(c *Client4, m *dhcpv4.DHCPv4, kind string) *DG {
 	}
 	c.Sent++
 	ifx := c.Link
-	return w.Send(li, m.ToBytes(), src4(c), ifx, fmt.Sprintf("%s %s xid=%x", c, kind, m.TransactionID), c.ID, nil)
+	return w.Send(li, m.ToBytes(), src4(c), ifx, fmt.Sprintf("%s %s xid=%x", c, kind, m.TransactionID[:]), c.ID, nil)
 }
 
 // drawMAC draws a hardware address of the given length.
